@@ -89,8 +89,11 @@ Example C06_example_canonical_queryusers :
   = ("shoot: Get(""/users"")" ++ nls ++ "shoot: alias={pageSize:size},{pageIdx:page_idx}" ++ nls)%string.
 Proof. exact canonical_example_queryusers. Qed.
 
-(* what the declarative request says when a request is sent (exactly one: [OSent r] is one
-   c.client.Do(req_)): verb, path, URL, headers, context, body (POST/PUT/PATCH), query (GET/DELETE) *)
+(* what the declarative request says when a request is sent.  "Exactly one request" is a convention of the
+   model ([OSent r] stands for one c.client.Do(req_), errors for none); it is checked by the driver of the
+   correspondence (requests counted per call), not proved.  "Joined to the base URL" is [join_path base path_]
+   for an uninterpreted join_path; what url.JoinPath does to unescaped argument text is the open finding
+   K_rest_path_percent (C06_refuted_K_rest_path_percent below). verb, path, URL, headers, context, body (POST/PUT/PATCH), query (GET/DELETE) *)
 Theorem C06_declared_request_reads :
   forall fmt_v join_path json_marshal url_query sigma_d ms hd base args r,
   spec_request fmt_v join_path json_marshal url_query sigma_d ms hd base args = OSent r ->
@@ -114,7 +117,10 @@ Theorem C06_declared_request_reads :
 Proof. exact spec_sent_inv. Qed.
 Print Assumptions C06_declared_request_reads.
 
-(* the interface level (cook.go:56-178): every method is analysed on its own -- its context,
+(* the interface level (cook.go:56-178).  NOTE: the first statement holds by construction of the model
+   (cook_methods is written per method; that the Go maps keyed by method name do not leak is what the L2
+   comparison of mixed interfaces checks); the second one has content (every well-formed method is accepted).
+   Every method is analysed on its own -- its context,
    body and dictionary parameters never leak into another method (the repaired K_rest_ctx_global
    was the template testing the context map of the whole interface) -- and every method of an
    interface whose methods are all well-formed gets its client method *)
@@ -260,6 +266,7 @@ Theorem C06_refuted_K_rest_ptr_map :
   exists d, cook_method ido E0 m_ptrmap = COk d /\ static_ok d = false.
 Proof. exact refuted_ptr_map. Qed.
 Print Assumptions C06_refuted_K_rest_ptr_map.
+(* by construction of the model (exec starts with the static_ok test) *)
 Theorem C06_static_not_ok_does_not_compile :
   forall fmt_v join_path json_marshal url_query sigma_d hdrs d base args,
   static_ok d = false -> exec fmt_v join_path json_marshal url_query sigma_d hdrs d base args = ONoCompile.
